@@ -11,6 +11,13 @@ def const(w):
     return {'c': w}
 
 
+def exc_choice(rng, opts):
+    """an ordinary exception type; among the faults: one the serializer rejects"""
+    if opts.get('faults') and rng.random() < 0.1:
+        return 'UnserError'
+    return rng.choice(EXCS)
+
+
 def small_arg(rng):
     """arguments that are captured into keys: keep them key-friendly (no sets: K1)"""
     c = rng.random()
@@ -83,13 +90,15 @@ def gen_in_site(rng, name, idx, opts):
     extra = [const(rand_value(rng, 2))] if rng.random() < 0.5 else []
     if opts.get('aliasing') and rng.random() < 0.5:
         extra = [const(aliased_value(rng))]           # a value with a back reference / one object reachable twice
+    elif opts.get('faults') and rng.random() < 0.06:
+        extra = [const({'unser': 1})]                 # a value the serializer rejects (`encode` raises)
     result = {'t': [const({'s': 'r:' + site['alias']})] + keyparts + extra}
     if keyparts and rng.random() < 0.3:
         # raises for one particular captured value, returns otherwise
         body.append({'op': 'ifeq', 'x': keyparts[0]['v'], 'e': const({'i': '1'}),
-                     'then': [{'op': 'raise', 't': rng.choice(EXCS)}], 'else': []})
+                     'then': [{'op': 'raise', 't': exc_choice(rng, opts)}], 'else': []})
     elif not keyparts and rng.random() < 0.15:
-        body.append({'op': 'raise', 't': rng.choice(EXCS)})
+        body.append({'op': 'raise', 't': exc_choice(rng, opts)})
     if opts.get('interrupts') and rng.random() < 0.06:
         body.append({'op': 'interrupt', 't': rng.choice(INTERRUPTS)})
     body.append({'op': 'ret', 'e': result})
@@ -109,7 +118,7 @@ def gen_out_site(rng, name, idx, opts):
         body.append({'op': rng.choice(['force', 'discard'] if opts.get('faults') else ['force'])})
     c = rng.random()
     if c < 0.15:
-        body.append({'op': 'raise', 't': rng.choice(EXCS)})
+        body.append({'op': 'raise', 't': exc_choice(rng, opts)})
     elif opts.get('interrupts') and c < 0.2:
         body.append({'op': 'interrupt', 't': rng.choice(INTERRUPTS)})
     body.append({'op': 'ret', 'e': rng.choice([const(None), const({'s': 'ack'}), {'t': [{'v': 'a%d' % i} for i in range(nargs)]},
@@ -168,7 +177,7 @@ def gen_script(rng, sites, opts, length=None):
     if c < 0.7:
         script.append({'op': 'ret', 'e': {'t': [{'v': v} for v in vars_] + [const(rand_value(rng, 1))]}})
     elif c < 0.85 or not opts.get('interrupts'):
-        script.append({'op': 'raise', 't': rng.choice(EXCS)})
+        script.append({'op': 'raise', 't': exc_choice(rng, opts)})
     else:
         script.append({'op': 'interrupt', 't': rng.choice(INTERRUPTS)})
     return script
